@@ -9,4 +9,4 @@ RULE = ('the C09 histories with a relationship-heavy mix; after every operation,
 
 
 def main(tier, seed):
-    return seqcommon.main_for('C12', 'exploration', RULE, ['rels', 'rels', 'delete', 'default', 'mix'], tier, seed)
+    return seqcommon.main_for('C12', 'exploration', RULE, ['rels', 'partial', 'rels', 'delete', 'default', 'mix', 'partial'], tier, seed)
